@@ -80,7 +80,7 @@ def model_sessions(res, positions_list, tier=None):
     for c, i, m in zip(cases, impl, model):
         ni = gen_session.normalise(i)
         if ni != m:
-            if k < MAXREP: res.violation('session', c, m[-700:], ni[-700:], 'model', 'engine output differs from the Coq search/driver model (node counts, scores, pv, bestmove, read-back FEN)')
+            res.tie_break('session', c, m[-700:], ni[-700:])
             k += 1
     return cases
 
@@ -224,6 +224,38 @@ def c09(res, ctx):
     model_sessions(res, ps)
     return dict(rule='deterministic sessions (incl. hook aborts) against the extracted search/driver model; for each position: abort points spread over 1..nodes of a depth-3 search (polling period 1, stop flag / move-time modes), chains of 2-6 consecutive interrupted searches, real-time stop and movetime expiry; read-back FEN, bestmove legality and a following go depth 1 are checked')
 
+def near_terminal(res, n):
+    """few-piece positions from which a stalemate or mate is reachable in exactly 1 or 2 plies: the places where the
+    horizon / interior handling of move-less positions decides the minimax value"""
+    from props import make_cases
+    rng = random.Random(res.seed + 17)
+    base = V.gen_positions('endgames', res.seed + 500, n)
+    def successors(ps):
+        cases = make_cases(ps, rng, per=None)
+        outs = V.run_impl('make', cases)
+        succ = {}
+        for c, o in zip(cases, outs):
+            f = o.split(' ')
+            if len(f) >= 8:
+                succ.setdefault(c.split('\t')[0], []).append(' '.join(f[:6]))
+        return succ
+    def terminals(fens):
+        fens = sorted(set(fens))
+        chk = V.run_impl('check', fens)
+        return {f for f, o in zip(fens, chk) if o.endswith('E1')}
+    s1 = successors(base)
+    all1 = [x for v in s1.values() for x in v]
+    term1 = terminals(all1)
+    d1 = [p for p, v in s1.items() if any(x in term1 for x in v)]            # a terminal position one ply away
+    sample1 = rng.sample(sorted(set(all1) - term1), min(len(set(all1) - term1), n))
+    s2 = successors(sample1)
+    term2 = terminals([x for v in s2.values() for x in v])
+    has_term_move = {p for p, v in s2.items() if any(x in term2 for x in v)}
+    d2 = [p for p, v in s1.items() if any(x in has_term_move for x in v)]     # ... two plies away
+    out = [(p, 1) for p in d1] + [(p, 2) for p in d1[: len(d1) // 2]] + [(p, 2) for p in d2] + [(p, 3) for p in d2[: len(d2) // 3]]
+    rng.shuffle(out)
+    return out
+
 # ------------------------------------------------------------------ C08
 MATES = [
     # (fen, mate in N for the side to move)
@@ -251,6 +283,11 @@ def c08(res, ctx):
                 other = rng.choice(ps)
                 pre = ['position fen ' + other, 'go depth %d' % rng.randint(1, 3)]
             cases.append('\t'.join(pre + ['position fen ' + p, 'go depth %d' % d])); meta.append((p, d, None))
+    nt = near_terminal(res, 5000 if q else 40000)
+    for p, d in nt[: (160 if q else 4000)]:
+        f = p.split(' '); f[4] = str(min(int(f[4]), 20)); p = ' '.join(f)
+        cases.append('\t'.join(['position fen ' + p, 'go depth %d' % d])); meta.append((p, d, None))
+    res.families['near-terminal'] = len(nt)
     mleg = legal_sets([f for f, _ in MATES] + [flip_fen(f) for f, _ in MATES])
     for fen, _ in MATES:
         if mleg.get(fen) and mleg.get(flip_fen(fen)):
@@ -334,6 +371,11 @@ def c10_engine(res):
     roots = ['rnbqkbnr/pppppppp/8/8/8/8/PPPPPPPP/RNBQKBNR w KQkq - 0 1', 'r3k2r/8/8/8/8/8/8/R3K2R w KQkq - 0 1', '4k3/8/8/8/8/8/8/R3K2R w K - 30 40']
     lines2 = ['a1b1 a8b8 b1a1 b8a8 a1b1 a8b8 b1a1 b8a8', 'h1g1 e8d8 g1h1 d8e8 h1g1 e8d8 g1h1 d8e8 h1g1 e8d8 g1h1 d8e8']
     combos = [(roots[0], l) for l in lines] + [(roots[1], lines2[0]), (roots[2], lines2[1])]
+    # the same games entered from FENs with odd / small / large half-move clocks (parity of the window anchor)
+    def with_half(fen, h):
+        w = fen.split(' '); w[4] = str(h); return ' '.join(w)
+    for h in (1, 3, 7, 20, 33) if q else (1, 2, 3, 5, 7, 9, 20, 33, 61, 90):
+        combos += [(with_half(roots[0], h), lines[0]), (with_half(roots[0], h), lines[3]), (with_half(roots[1], h), lines2[0]), (with_half(roots[2], h), lines2[1])]
     cases, meta = [], []
     for root, l in combos:
         ms = l.split(' ')
@@ -383,7 +425,7 @@ def c11(res, ctx):
     for i in range(0, len(cases), 2):
         a, b = impl[i], impl[i + 1]
         if model is not None and (model[i] != a or model[i + 1] != b):
-            if k < MAXREP: res.violation('eval', cases[i], model[i], a, 'model', 'static evaluation differs from the Coq model')
+            res.tie_break('eval', cases[i], model[i], a)
             k += 1; continue
         try:
             va, vb = int(a.split(' ')[0]), int(b.split(' ')[0])
@@ -511,7 +553,7 @@ def c16(res, ctx):
     # renderer: model vs the real ConsoleUciTx on generated messages; every rendering of a msg_ok message must be a valid line
     import gen_consoletx
     tx_cases = V.corpus('consoletx') + gen_consoletx.gen(rng, res.tier)
-    ti, tm = diff(res, 'consoletx', tx_cases, nontrivial=getattr(gen_consoletx, 'nontrivial', None))
+    ti, tm = diff(res, 'consoletx', tx_cases, nontrivial=getattr(gen_consoletx, 'nontrivial', None), level='tie')
     okflags = V.run_model('consoletx-ok', tx_cases)
     rendered = [(c, o) for c, o, f in zip(tx_cases, ti, okflags) if f == 'ok' and o not in ('NONE', 'PANIC', 'BADCASE')]
     verdict = V.run_model('spec-engineline', [o for _, o in rendered])
